@@ -1,1 +1,431 @@
-pub fn main(_args: &[String]) -> i32 { eprintln!("drive: not built yet"); 2 }
+// code -> spec: seeded random sequential histories, recorded for trace validation.
+//
+// The generator knows the protocol only as a vocabulary (verbs, parameter pools); it looks
+// at the latest snapshot merely to bias its choices towards names that exist.  What the
+// server should have answered is decided by the specification, not here.
+
+use crate::core::*;
+use crate::replay::run_behaviour;
+use rand::rngs::StdRng;
+use rand::seq::SliceRandom;
+use rand::{Rng, SeedableRng};
+use serde_json::{json, Value};
+use std::io::{BufWriter, Write};
+
+pub const CONNS: [&str; 6] = [
+    "127.0.0.1", "127.0.0.2", "127.0.0.3", "127.0.0.4", "127.0.0.5", "127.0.0.6",
+];
+pub const NICKS: [&str; 8] = ["alice", "bob", "carol", "dave", "eve", "god", "zoë", "x"];
+pub const CHANS: [&str; 5] = ["#one", "&two", "#pre", "#sec", "#four"];
+pub const KEYS: [&str; 3] = ["k1", "k2", "sesame"];
+pub const TEXTS: [&str; 7] = [
+    "hello",
+    "hello: world",
+    "",
+    "za\u{17c}\u{f3}\u{142}\u{107} g\u{119}\u{15b}l\u{105}",
+    ":leading colon",
+    "a  b   c",
+    "x",
+];
+
+pub fn cmd(verb: &str, p: Vec<Vec<String>>) -> Value {
+    json!({"verb": verb, "p": p})
+}
+fn s(x: &str) -> String {
+    x.to_string()
+}
+
+pub fn profile_cfg(profile: &str) -> Value {
+    match profile {
+        "plain" => json!({}),
+        "pw" => json!({"password": ["srvpass"], "max_joins": [2]}),
+        "modes" => json!({"default_modes": ["i", "w"], "max_joins": [3],
+            "operators": [{"name": "god", "pass": "godpass"}]}),
+        "dflto" => json!({"default_modes": ["O"],
+            "operators": [{"name": "god", "pass": "godpass"}]}),
+        _ => json!({
+            "max_joins": [3], "max_connections": [5],
+            "motd": "Message of the day", "network": "VerifNet", "name": "irc.verif.test",
+            "admin_info2": ["second line"], "admin_email": ["admin@verif.test"],
+            "operators": [{"name": "god", "pass": "godpass"},
+                          {"name": "root", "pass": "rootpass", "mask": ["*!*@127.0.0.2"]}],
+            "users": [{"name": "reg1", "nick": "reg1", "pass": ["userpass"]},
+                      {"name": "reg2", "nick": "reg2"},
+                      {"name": "reg3", "nick": "reg3", "mask": ["*!*@127.0.0.3"]}],
+            "channels": [{"name": "#pre", "topic": ["Preconfigured: topic"], "flags": ["n", "t"],
+                          "o": ["alice"], "v": ["bob"], "q": ["carol"]},
+                         {"name": "#sec", "flags": ["s", "i"], "key": ["sesame"], "limit": [3],
+                          "ban": ["eve!*@*"], "exc": ["eve!*@127.0.0.5"], "invex": ["*!*@127.0.0.6"],
+                          "h": ["dave"], "a": ["bob"]}]
+        }),
+    }
+}
+
+pub struct Gen {
+    pub rng: StdRng,
+    pub profile: String,
+}
+
+impl Gen {
+    fn pick<'a>(&mut self, v: &'a [&'a str]) -> String {
+        v.choose(&mut self.rng).unwrap().to_string()
+    }
+    fn nick_pool(&mut self, snap: &Value) -> String {
+        // an existing nick most of the time
+        let ex: Vec<String> = snap["users"].as_object().map(|o| o.keys().cloned().collect()).unwrap_or_default();
+        if !ex.is_empty() && self.rng.gen_bool(0.75) {
+            ex.choose(&mut self.rng).unwrap().clone()
+        } else {
+            self.pick(&NICKS)
+        }
+    }
+    fn chan_pool(&mut self, snap: &Value) -> String {
+        let ex: Vec<String> = snap["chans"].as_object().map(|o| o.keys().cloned().collect()).unwrap_or_default();
+        if !ex.is_empty() && self.rng.gen_bool(0.7) {
+            ex.choose(&mut self.rng).unwrap().clone()
+        } else {
+            self.pick(&CHANS)
+        }
+    }
+    fn mask(&mut self, snap: &Value) -> String {
+        let n = self.nick_pool(snap);
+        let k = self.rng.gen_range(1..7);
+        match self.rng.gen_range(0..9) {
+            0 => format!("{}!*@*", n),
+            1 => n,
+            2 => format!("*!*@127.0.0.{}", k),
+            3 => format!("*!~u{}@*", k),
+            4 => format!("{}@127.0.0.{}", n, k),
+            5 => format!("{}!~u{}", n, k),
+            6 => "*".to_string(),
+            7 => format!("?{}*", &n[n.chars().next().map(|c| c.len_utf8()).unwrap_or(0)..]),
+            _ => format!("*{}", &n[..n.char_indices().nth(1).map(|x| x.0).unwrap_or(n.len())]),
+        }
+    }
+    fn text(&mut self) -> String {
+        self.pick(&TEXTS)
+    }
+    fn list<F: FnMut(&mut Gen) -> String>(&mut self, mut f: F) -> Vec<String> {
+        let n = match self.rng.gen_range(0..10) {
+            0..=6 => 1,
+            7..=8 => 2,
+            _ => 3,
+        };
+        (0..n).map(|_| f(self)).collect()
+    }
+
+    fn prereg(&mut self, snap: &Value, c: &str) -> Value {
+        let k = &snap["conns"][c];
+        let has_nick = k["nick"].as_array().map(|a| !a.is_empty()).unwrap_or(false);
+        let has_user = k["uname"].as_array().map(|a| !a.is_empty()).unwrap_or(false);
+        let idx = CONNS.iter().position(|x| *x == c).unwrap_or(0) + 1;
+        let r = self.rng.gen_range(0..100);
+        if r < 30 && !has_nick || r < 8 {
+            cmd("NICK", vec![vec![self.nick_pool(snap)]])
+        } else if r < 60 && !has_user || r < 14 {
+            let un = if self.profile == "full" && self.rng.gen_bool(0.35) {
+                self.pick(&["reg1", "reg2", "reg3"])
+            } else {
+                format!("u{}", idx)
+            };
+            cmd("USER", vec![vec![un], vec![format!("Real {}", idx)]])
+        } else if r < 70 {
+            let pw = self.pick(&["srvpass", "userpass", "wrong", "godpass"]);
+            cmd("PASS", vec![vec![pw]])
+        } else if r < 80 {
+            match self.rng.gen_range(0..5) {
+                0 => cmd("CAP", vec![vec![s("LS")], vec![s("302")]]),
+                1 => cmd("CAP", vec![vec![s("LS")]]),
+                2 => cmd("CAP", vec![vec![s("REQ")], vec![s("multi-prefix")]]),
+                3 => cmd("CAP", vec![vec![s("LIST")]]),
+                _ => cmd("CAP", vec![vec![s("END")]]),
+            }
+        } else if r < 92 {
+            self.registered_cmd(snap, c)
+        } else if r < 96 {
+            cmd("QUIT", vec![])
+        } else {
+            cmd(self.pick(&["!close", "!rst"]).as_str(), vec![])
+        }
+    }
+
+    fn mode_groups(&mut self, snap: &Value) -> Vec<Vec<String>> {
+        let ngroups = if self.rng.gen_bool(0.8) { 1 } else { 2 };
+        let mut out = vec![];
+        for _ in 0..ngroups {
+            let nl = self.rng.gen_range(1..4);
+            let mut ms = String::new();
+            let mut args = vec![];
+            let mut sign = self.rng.gen_bool(0.65);
+            ms.push(if sign { '+' } else { '-' });
+            for j in 0..nl {
+                if j > 0 && self.rng.gen_bool(0.25) {
+                    sign = !sign;
+                    ms.push(if sign { '+' } else { '-' });
+                }
+                let l = *b"qaohvbeIklimtns".choose(&mut self.rng).unwrap() as char;
+                ms.push(l);
+                match l {
+                    'q' | 'a' | 'o' | 'h' | 'v' => args.push(self.nick_pool(snap)),
+                    'b' | 'e' | 'I' => {
+                        if self.rng.gen_bool(0.8) {
+                            let m = self.mask(snap);
+                            args.push(m)
+                        }
+                    }
+                    'k' => {
+                        if sign {
+                            args.push(self.pick(&KEYS))
+                        }
+                    }
+                    'l' => {
+                        if sign {
+                            args.push(self.rng.gen_range(0..4).to_string())
+                        }
+                    }
+                    _ => {}
+                }
+            }
+            let mut g = vec![ms];
+            g.extend(args);
+            out.push(g);
+        }
+        out
+    }
+
+    fn registered_cmd(&mut self, snap: &Value, c: &str) -> Value {
+        let me = snap["conns"][c]["nick"][0].as_str().unwrap_or("").to_string();
+        let r = self.rng.gen_range(0..1000);
+        match r {
+            0..=119 => {
+                let chs = self.list(|g| g.chan_pool(snap));
+                if self.rng.gen_bool(0.3) {
+                    let keys = chs.iter().map(|_| self.pick(&KEYS)).collect();
+                    cmd("JOIN", vec![chs, keys])
+                } else {
+                    cmd("JOIN", vec![chs])
+                }
+            }
+            120..=169 => {
+                let chs = self.list(|g| g.chan_pool(snap));
+                if self.rng.gen_bool(0.4) {
+                    cmd("PART", vec![chs, vec![self.text()]])
+                } else {
+                    cmd("PART", vec![chs])
+                }
+            }
+            170..=289 => {
+                let verb = if self.rng.gen_bool(0.7) { "PRIVMSG" } else { "NOTICE" };
+                let tg = self.list(|g| {
+                    let ch = g.chan_pool(snap);
+                    match g.rng.gen_range(0..10) {
+                        0..=3 => ch,
+                        4 => format!("@{}", ch),
+                        5 => format!("+{}", ch),
+                        6 => format!("~@{}", ch),
+                        7 => format!("%&@{}", ch),
+                        _ => g.nick_pool(snap),
+                    }
+                });
+                cmd(verb, vec![tg, vec![self.text()]])
+            }
+            290..=409 => {
+                let ch = self.chan_pool(snap);
+                let mut p = vec![vec![ch]];
+                if self.rng.gen_bool(0.9) {
+                    p.extend(self.mode_groups(snap));
+                }
+                cmd("MODE", p)
+            }
+            410..=449 => {
+                let target = if self.rng.gen_bool(0.8) { me.clone() } else { self.nick_pool(snap) };
+                let mut p = vec![vec![target]];
+                if self.rng.gen_bool(0.9) {
+                    let mut ms = String::new();
+                    ms.push(if self.rng.gen_bool(0.6) { '+' } else { '-' });
+                    for _ in 0..self.rng.gen_range(1..3) {
+                        ms.push(*b"iorwO".choose(&mut self.rng).unwrap() as char);
+                        if self.rng.gen_bool(0.2) {
+                            ms.push(if self.rng.gen_bool(0.5) { '+' } else { '-' });
+                        }
+                    }
+                    p.push(vec![ms]);
+                }
+                cmd("MODE", p)
+            }
+            450..=499 => {
+                let ch = self.chan_pool(snap);
+                let us = self.list(|g| g.nick_pool(snap));
+                if self.rng.gen_bool(0.5) {
+                    cmd("KICK", vec![vec![ch], us, vec![self.text()]])
+                } else {
+                    cmd("KICK", vec![vec![ch], us])
+                }
+            }
+            500..=539 => {
+                let ch = self.chan_pool(snap);
+                if self.rng.gen_bool(0.6) {
+                    cmd("TOPIC", vec![vec![ch], vec![self.text()]])
+                } else {
+                    cmd("TOPIC", vec![vec![ch]])
+                }
+            }
+            540..=579 => cmd("INVITE", vec![vec![self.nick_pool(snap)], vec![self.chan_pool(snap)]]),
+            580..=619 => {
+                if self.rng.gen_bool(0.8) {
+                    cmd("NAMES", vec![self.list(|g| g.chan_pool(snap))])
+                } else {
+                    cmd("NAMES", vec![])
+                }
+            }
+            620..=649 => {
+                if self.rng.gen_bool(0.6) {
+                    cmd("LIST", vec![self.list(|g| g.chan_pool(snap))])
+                } else {
+                    cmd("LIST", vec![])
+                }
+            }
+            650..=689 => {
+                let m = match self.rng.gen_range(0..3) {
+                    0 => self.chan_pool(snap),
+                    1 => self.nick_pool(snap),
+                    _ => self.mask(snap),
+                };
+                cmd("WHO", vec![vec![m]])
+            }
+            690..=729 => {
+                let ms = self.list(|g| {
+                    if g.rng.gen_bool(0.7) {
+                        g.nick_pool(snap)
+                    } else {
+                        let n = g.nick_pool(snap);
+                        format!("{}*", n.chars().next().unwrap_or('a'))
+                    }
+                });
+                cmd("WHOIS", vec![ms])
+            }
+            730..=749 => {
+                if self.rng.gen_bool(0.7) {
+                    cmd("WHOWAS", vec![vec![self.pick(&NICKS)]])
+                } else {
+                    cmd("WHOWAS", vec![vec![self.pick(&NICKS)], vec![self.rng.gen_range(0..3).to_string()]])
+                }
+            }
+            750..=799 => cmd("NICK", vec![vec![self.pick(&NICKS)]]),
+            800..=829 => {
+                let (n, p) = match self.rng.gen_range(0..4) {
+                    0 => ("god", "godpass"),
+                    1 => ("god", "wrong"),
+                    2 => ("root", "rootpass"),
+                    _ => ("nobody", "godpass"),
+                };
+                cmd("OPER", vec![vec![s(n)], vec![s(p)]])
+            }
+            830..=849 => {
+                if self.rng.gen_bool(0.6) {
+                    cmd("AWAY", vec![vec![self.text()]])
+                } else {
+                    cmd("AWAY", vec![])
+                }
+            }
+            850..=869 => cmd("LUSERS", vec![]),
+            870..=889 => cmd("ISON", vec![self.list(|g| g.nick_pool(snap))]),
+            890..=909 => cmd("USERHOST", vec![self.list(|g| g.nick_pool(snap))]),
+            910..=924 => cmd("WALLOPS", vec![vec![self.text()]]),
+            925..=939 => cmd("KILL", vec![vec![self.nick_pool(snap)], vec![self.text()]]),
+            940..=949 => cmd("PING", vec![vec![format!("tok{}", self.rng.gen_range(0..100))]]),
+            950..=954 => cmd("PONG", vec![vec![s("x")]]),
+            955..=969 => {
+                let v = self.pick(&["MOTD", "VERSION", "ADMIN", "INFO", "TIME", "LINKS", "HELP", "REHASH", "RESTART"]);
+                cmd(&v, vec![])
+            }
+            970..=974 => cmd("STATS", vec![vec![self.pick(&["u", "l", "o"])]]),
+            975..=979 => cmd("HELP", vec![vec![self.pick(&["COMMANDS", "NOPE"])]]),
+            980..=984 => cmd("PASS", vec![vec![s("again")]]),
+            985..=988 => cmd("USER", vec![vec![s("again")], vec![s("Again")]]),
+            989..=992 => cmd("QUIT", vec![]),
+            993..=996 => cmd(self.pick(&["!close", "!rst"]).as_str(), vec![]),
+            997 => cmd("SQUIT", vec![vec![s("other.server")], vec![s("bye")]]),
+            998 => cmd("CONNECT", vec![vec![s("other.server")]]),
+            _ => cmd("JOIN", vec![]),
+        }
+    }
+
+    pub fn next(&mut self, snap: &Value, nconn: usize) -> (String, Value) {
+        let c = CONNS[self.rng.gen_range(0..nconn)].to_string();
+        let k = &snap["conns"][&c];
+        if k.is_null() {
+            return (c, cmd("!open", vec![]));
+        }
+        let authed = k["authed"].as_bool().unwrap_or(false);
+        if !authed {
+            let v = self.prereg(snap, &c);
+            (c, v)
+        } else {
+            let v = self.registered_cmd(snap, &c);
+            (c, v)
+        }
+    }
+}
+
+pub async fn run_episode(id: &str, cfg: &Value, gen: &mut Gen, steps: usize, nconn: usize, out: &mut Vec<Value>) {
+    let cfgn = normalize_cfg(cfg);
+    let mut s = Session::start(&cfgn).await;
+    take_panics();
+    let mut snap = s.snapshot().await;
+    out.push(json!({"reset": true, "b": id, "cfg": cfgn, "post": snap}));
+    for i in 0..steps {
+        let (c, cm) = gen.next(&snap, nconn);
+        let (outs, issue) = s.step(&c, &cm).await;
+        let post = s.snapshot().await;
+        s.retire_ended();
+        let panics = take_panics();
+        let iss: Vec<String> = issue.into_iter().collect();
+        let dead = post["dead"].as_array().map(|a| !a.is_empty()).unwrap_or(false);
+        let stop = !iss.is_empty() || dead || !panics.is_empty() || !post["up"].as_bool().unwrap_or(true);
+        out.push(json!({"b": id, "i": i + 1, "c": c, "cmd": cm, "outs": outs,
+                        "post": post, "issue": iss, "panics": panics}));
+        snap = post;
+        if stop {
+            break;
+        }
+    }
+    s.stop().await;
+}
+
+pub fn main(args: &[String]) -> i32 {
+    if args.is_empty() {
+        eprintln!("drive <out.ndjson> --seed S --steps N [--episodes E] [--profile P] [--conns K]");
+        return 2;
+    }
+    let seed: u64 = arg_val(args, "--seed").and_then(|s| s.parse().ok()).unwrap_or(1);
+    let steps: usize = arg_val(args, "--steps").and_then(|s| s.parse().ok()).unwrap_or(200);
+    let episodes: usize = arg_val(args, "--episodes").and_then(|s| s.parse().ok()).unwrap_or(1);
+    let nconn: usize = arg_val(args, "--conns").and_then(|s| s.parse().ok()).unwrap_or(5);
+    let base: u16 = arg_val(args, "--port-base").and_then(|s| s.parse().ok()).unwrap_or(23000);
+    let profile_arg = arg_val(args, "--profile").unwrap_or_else(|| "mix".to_string());
+    set_port_base(base);
+    let mut w = BufWriter::new(std::fs::File::create(&args[0]).expect("create output"));
+    let rt = runtime(2);
+    let profiles = ["plain", "pw", "modes", "full", "dflto", "full"];
+    for e in 0..episodes {
+        let profile = if profile_arg == "mix" {
+            profiles[(seed as usize + e) % profiles.len()].to_string()
+        } else {
+            profile_arg.clone()
+        };
+        let mut gen = Gen {
+            rng: StdRng::seed_from_u64(seed.wrapping_mul(1000003).wrapping_add(e as u64)),
+            profile: profile.clone(),
+        };
+        let cfg = profile_cfg(&profile);
+        let mut recs = vec![];
+        let id = format!("drive-{}-{}-{}", seed, e, profile);
+        rt.block_on(run_episode(&id, &cfg, &mut gen, steps, nconn.min(6), &mut recs));
+        for r in recs {
+            writeln!(w, "{}", r).unwrap();
+        }
+    }
+    w.flush().unwrap();
+    0
+}
